@@ -25,7 +25,19 @@ def main():
         sys.exit(replay_file(a.pid, a.replay))
     from .runner import run_property
 
-    sys.exit(run_property(a.pid, a.tier, seed, update_baseline=a.update_baseline, jobs=a.jobs))
+    # every temporary file of this run (worker processes included: they do not run atexit handlers) lives under one
+    # private directory that the parent removes when the check ends
+    import shutil
+    import tempfile
+
+    run_tmp = tempfile.mkdtemp(prefix=f"verif_{a.pid}_")
+    os.environ["TMPDIR"] = run_tmp
+    tempfile.tempdir = run_tmp
+    try:
+        rc = run_property(a.pid, a.tier, seed, update_baseline=a.update_baseline, jobs=a.jobs)
+    finally:
+        shutil.rmtree(run_tmp, ignore_errors=True)
+    sys.exit(rc)
 
 
 if __name__ == "__main__":
